@@ -3,7 +3,17 @@
 import json, os, re
 ROOT = os.path.dirname(os.path.dirname(os.path.abspath(__file__)))
 res = json.load(open(os.path.join(ROOT, "seeded", "RESULTS.json"))) if os.path.exists(os.path.join(ROOT, "seeded", "RESULTS.json")) else {}
-rows = ["| id | change (summary) | needs to manifest | caught by (quick tier) | how |", "|---|---|---|---|---|"]
+first = json.load(open(os.path.join(ROOT, "seeded", "FIRST_RUN.json"))) if os.path.exists(os.path.join(ROOT, "seeded", "FIRST_RUN.json")) else {}
+rows = ["| id | change (summary) | needs to manifest | first run | caught by now (quick tier) | how |", "|---|---|---|---|---|---|"]
+
+
+def first_cell(sid, prop):
+    c = first.get(sid, {}).get("checks", {}).get(prop)
+    if not isinstance(c, dict):
+        return "-"
+    return {0: "missed", 1: "caught", 2: "undecided", 3: "checker crash"}.get(c.get("exit"), str(c.get("exit")))
+
+
 n_det = n = 0
 for sid in sorted(d for d in os.listdir(os.path.join(ROOT, "seeded")) if os.path.isdir(os.path.join(ROOT, "seeded", d))):
     m = json.load(open(os.path.join(ROOT, "seeded", sid, "meta.json")))
@@ -15,7 +25,7 @@ for sid in sorted(d for d in os.listdir(os.path.join(ROOT, "seeded")) if os.path
         how = r[p].get("detail", "").replace("violated:", "").strip()[:110].replace("|", "/")
     n += 1
     n_det += bool(caught)
-    rows.append(f"| {sid} | {m.get('summary', '')[:150].replace('|', '/')} | {m.get('needs', '')[:130].replace('|', '/')} | "
+    rows.append(f"| {sid} | {m.get('summary', '')[:150].replace('|', '/')} | {m.get('needs', '')[:130].replace('|', '/')} | {first_cell(sid, m.get('property'))} | "
                 f"{', '.join(caught) if caught else ('undecided (exit 2): ' + ', '.join(und) if und else '**missed**')} | {how} |")
 rows.append("")
 rows.append(f"{n_det} of {n} seeded changes are caught by the quick check of the property they were written for.")
